@@ -56,7 +56,12 @@ var registry = map[string]*Prop{}
 
 func Register(p *Prop) { registry[p.ID] = p }
 
-const verifDir = "/verif"
+var verifDir = func() string {
+	if d := os.Getenv("VERIF_DIR"); d != "" {
+		return d
+	}
+	return "/verif"
+}()
 
 type known struct {
 	prop, sig, text string
